@@ -1256,3 +1256,49 @@ def rule_point_coordinates_unreduced(ctx: Ctx, rep: Report, rule: str, module_pr
             rep.ob(rule, f"{q}:{norm(t)[:40]}", False, fi.where(t), f"`{norm(t)}` is a point with its x reduced modulo the group order: another pair, generally off the curve")
     rep.ob(rule, "scanned", True, "btclib:1", f"{n} functions in {module_prefixes}")
     rep.floor(rule, 2)
+
+
+SLICE_IN_SET_OK = {
+    "btclib.script.engine.script.check_pub_key": "the stack elements of the engine are bytes by construction (parse / var_bytes), and the function's callers assert it",
+    "btclib.bip32.key_origin.BIP32KeyOrigin.from_description": "a str: a slice of text is text, which hashes",
+}
+
+
+def unhashable_memberships(fn: ast.AST) -> list[ast.Compare]:
+    """`x[a:b] in {...}`: membership of a *slice* in a set literal. For bytes the slice is bytes; for a
+    bytearray or a memoryview -- which the library's Octets admit, and keeps as they came -- it is unhashable."""
+    return [c for c in own_nodes(fn) if isinstance(c, ast.Compare) and len(c.ops) == 1 and isinstance(c.ops[0], (ast.In, ast.NotIn)) and isinstance(c.comparators[0], (ast.Set, ast.SetComp))
+            and isinstance(c.left, ast.Subscript) and isinstance(c.left.slice, ast.Slice)]
+
+
+_SLICE_SAMPLE = '''
+def f(key):
+    if key[:1] not in {b"\\x02", b"\\x03"}:
+        raise ValueError
+'''
+
+
+def rule_hashable_membership(ctx: Ctx, rep: Report, rule: str, module_prefixes: tuple[str, ...]) -> None:
+    """The library keeps a caller's octets in the buffer they came in: a key, a
+    chain code, a signature may be a bytearray or a memoryview. A slice of one
+    is not hashable, so `octets[:1] in {b"\\x02", b"\\x03"}` -- fine for bytes --
+    is `TypeError: unhashable type` for them: a prefix test that raises on a
+    spelling the function accepted before. Prefix tests are written on the
+    integer (`octets[0] in (2, 3)`), against a tuple, or on a `bytes(...)` copy;
+    the sites where the operand is bytes or text by construction are a
+    reviewed table."""
+    from sa.loader import _set_parents
+    sample = ast.parse(_SLICE_SAMPLE)
+    _set_parents(sample)
+    rep.ob(rule, "selftest:sample", len(unhashable_memberships(sample.body[0])) == 1, "rules/sigcommon.py:1", "the detector fires on its own sample")
+    n = 0
+    for q, fi in sorted(ctx.prog.functions.items()):
+        if not any(q.startswith(p_) for p_ in module_prefixes):
+            continue
+        for c in unhashable_memberships(fi.node):
+            n += 1
+            why = SLICE_IN_SET_OK.get(q)
+            rep.ob(rule, f"{q}:{norm(c)[:40]}", why is not None, fi.where(c), f"reviewed: {why}" if why else
+                   f"`{norm(c)}` hashes a slice: for an operand held in a bytearray or a memoryview this is a TypeError, not an answer")
+    rep.ob(rule, "scanned", True, "btclib:1", f"{n} memberships of a slice in a set literal in {module_prefixes}")
+    rep.floor(rule, 2)
